@@ -570,88 +570,133 @@ Qed.
 Lemma items_text_app l r k : items_text l r ++ k = items_text l (r ++ k).
 Proof. apply items_text_app_gen. intros it _. apply (item_body_app_n (item_size it)). lia. Qed.
 
-Theorem roundtrip_kernel_complex s :
-  forall full b E k, blanks WS b -> stmt_end E k -> kc_stmt_ok s (E ++ k) ->
-  evals G full 8 true (At (b ++ kc_render s ++ E ++ k)) (POk (after WS k) [kc_tree s]).
+(* text of the statement up to and including the pattern, followed by T *)
+Definition kc_text (s : kc_stmt) (T : pstr) : pstr :=
+  kc_n0 s :: kc_ns s ++ kc_b2 s ++ 61%N :: items_text (kc_first s :: kc_more s) T.
+Definition kc_head_toks (s : kc_stmt) : list tok :=
+  [TStr (kc_n0 s :: kc_ns s); TList (items_toks (kc_first s :: kc_more s))].
+Definition wrap_kc (res : pres) : pres :=
+  match res with POk p t => POk p [TList (TStr tag_kc :: t)] | PFail => PFail | PFuel => PFuel end.
+
+(* the ten keyword-led alternatives before the kernel-complex one fail *)
+Lemma kernel_keyword_alts_fail s full b T rest res :
+  blanks WS b -> kc_stmt_ok s T -> firsts G full (202 :: rest) (At (b ++ kc_text s T)) res ->
+  firsts G full (9 :: 30 :: 41 :: 49 :: 57 :: 71 :: 84 :: 101 :: 115 :: 189 :: 202 :: rest) (At (b ++ kc_text s T)) res.
 Proof.
-  intros full b E k Hb Hk (H0 & Hns & Hnk & Hb2 & Hwf).
-  unfold kc_render. norm_text. rewrite items_text_app. cbn [app].
-  remember (items_text (kc_first s :: kc_more s) (E ++ k)) as R eqn:ER.
-  set (name := kc_n0 s :: kc_ns s).
-  assert (Hx : spre (b ++ kc_n0 s :: kc_ns s ++ kc_b2 s ++ 61%N :: R) = name ++ kc_b2 s ++ 61%N :: R)
+  intros Hb (H0 & Hns & Hnk & Hb2 & Hwf) Hrest. unfold kc_text in *.
+  remember (items_text (kc_first s :: kc_more s) T) as R eqn:ER.
+  assert (Hx : spre (b ++ kc_n0 s :: kc_ns s ++ kc_b2 s ++ 61%N :: R) = (kc_n0 s :: kc_ns s) ++ kc_b2 s ++ 61%N :: R)
     by (apply spre_blanks_stop; [exact Hb|apply idch_stop; exact H0]).
   assert (Hfol : nohead idch (kc_b2 s ++ 61%N :: R))
     by (apply nohead_blanks; [vm_compute; reflexivity|exact Hb2|reflexivity]).
-  (* the keyword-led alternatives fail *)
   assert (Hkw : forall kw, In kw pil_keywords ->
             starts_with kw (spre (b ++ kc_n0 s :: kc_ns s ++ kc_b2 s ++ 61%N :: R)) = None).
   { intros kw Hin. rewrite Hx. apply starts_with_not_prefix.
     - unfold not_keyword_led in Hnk. rewrite forallb_forall in Hnk. apply negb_true_iff. apply Hnk. exact Hin.
     - pose proof keywords_idch as Hi. rewrite forallb_forall in Hi. apply Hi. exact Hin.
     - exact Hfol. }
-  assert (Hend : nohead idch (spre (E ++ k)) /\ nohead [PLUS] (spre (E ++ k)) /\ nohead [64%N] (spre (E ++ k))).
-  { repeat split; apply end_nohead_spre; try exact Hk; reflexivity. }
-  destruct Hend as (He1 & He2 & He3).
+  eapply firsts_miss; [eapply (evals_kw_alt_fail G full pil_c WS pil_comment_ok 9 10 11 12); [lk|lk|lk|lk|apply Hkw; cbn; auto 12]|].
+  eapply firsts_miss; [eapply (evals_kw_alt_fail G full pil_c WS pil_comment_ok 30 31 32 33); [lk|lk|lk|lk|apply Hkw; cbn; auto 12]|].
+  eapply firsts_miss; [eapply (evals_kw_alt_fail G full pil_c WS pil_comment_ok 41 42 43 44); [lk|lk|lk|lk|apply Hkw; cbn; auto 12]|].
+  eapply firsts_miss; [eapply (evals_kw_alt_fail G full pil_c WS pil_comment_ok 49 50 51 52); [lk|lk|lk|lk|apply Hkw; cbn; auto 12]|].
+  eapply firsts_miss; [eapply (evals_kw_alt_fail G full pil_c WS pil_comment_ok 57 58 59 60); [lk|lk|lk|lk|apply Hkw; cbn; auto 12]|].
+  eapply firsts_miss; [eapply (evals_kw_alt_fail G full pil_c WS pil_comment_ok 71 72 73 74); [lk|lk|lk|lk|apply Hkw; cbn; auto 12]|].
+  eapply firsts_miss; [eapply (evals_kw_alt_fail G full pil_c WS pil_comment_ok 84 85 86 87); [lk|lk|lk|lk|apply Hkw; cbn; auto 12]|].
+  eapply firsts_miss; [eapply (evals_kw_alt_fail G full pil_c WS pil_comment_ok 101 102 103 104); [lk|lk|lk|lk|apply Hkw; cbn; auto 12]|].
+  eapply firsts_miss; [eapply (evals_kw_alt_fail G full pil_c WS pil_comment_ok 115 116 117 118); [lk|lk|lk|lk|apply Hkw; cbn; auto 12]|].
+  eapply firsts_miss; [eapply (evals_kw_alt_fail G full pil_c WS pil_comment_ok 189 190 191 192); [lk|lk|lk|lk|apply Hkw; cbn; auto 12]|].
+  exact Hrest.
+Qed.
+
+(* the kernel-complex alternative: name, '=', the pattern up to T (where no pattern item can start), then whatever
+   the optional concentration and the line end do at T *)
+Lemma kernel_alt_202 s full b T res :
+  blanks WS b -> kc_stmt_ok s T -> nohead idch (spre T) -> nohead [PLUS] (spre T) ->
+  seqs G full [238; 260] (At T) (kc_head_toks s) res ->
+  evals G full 202 true (At (b ++ kc_text s T)) (wrap_kc res).
+Proof.
+  intros Hb (H0 & Hns & Hnk & Hb2 & Hwf) He1 He2 Htail. unfold kc_text.
+  remember (items_text (kc_first s :: kc_more s) T) as R eqn:ER.
+  assert (Hx : spre (b ++ kc_n0 s :: kc_ns s ++ kc_b2 s ++ 61%N :: R) = (kc_n0 s :: kc_ns s) ++ kc_b2 s ++ 61%N :: R)
+    by (apply spre_blanks_stop; [exact Hb|apply idch_stop; exact H0]).
+  assert (Hfol : nohead idch (kc_b2 s ++ 61%N :: R))
+    by (apply nohead_blanks; [vm_compute; reflexivity|exact Hb2|reflexivity]).
   pose proof Hwf as (Hwi & Hwl).
   eapply evals_eq.
-  - eapply evals_node_ok; [lk|cbn; reflexivity|]. apply impls_first; [reflexivity|]. cbn [nkids].
-    eapply firsts_miss; [eapply (evals_kw_alt_fail G full pil_c WS pil_comment_ok 9 10 11 12); [lk|lk|lk|lk|apply Hkw; cbn; auto 12]|].
-    eapply firsts_miss; [eapply (evals_kw_alt_fail G full pil_c WS pil_comment_ok 30 31 32 33); [lk|lk|lk|lk|apply Hkw; cbn; auto 12]|].
-    eapply firsts_miss; [eapply (evals_kw_alt_fail G full pil_c WS pil_comment_ok 41 42 43 44); [lk|lk|lk|lk|apply Hkw; cbn; auto 12]|].
-    eapply firsts_miss; [eapply (evals_kw_alt_fail G full pil_c WS pil_comment_ok 49 50 51 52); [lk|lk|lk|lk|apply Hkw; cbn; auto 12]|].
-    eapply firsts_miss; [eapply (evals_kw_alt_fail G full pil_c WS pil_comment_ok 57 58 59 60); [lk|lk|lk|lk|apply Hkw; cbn; auto 12]|].
-    eapply firsts_miss; [eapply (evals_kw_alt_fail G full pil_c WS pil_comment_ok 71 72 73 74); [lk|lk|lk|lk|apply Hkw; cbn; auto 12]|].
-    eapply firsts_miss; [eapply (evals_kw_alt_fail G full pil_c WS pil_comment_ok 84 85 86 87); [lk|lk|lk|lk|apply Hkw; cbn; auto 12]|].
-    eapply firsts_miss; [eapply (evals_kw_alt_fail G full pil_c WS pil_comment_ok 101 102 103 104); [lk|lk|lk|lk|apply Hkw; cbn; auto 12]|].
-    eapply firsts_miss; [eapply (evals_kw_alt_fail G full pil_c WS pil_comment_ok 115 116 117 118); [lk|lk|lk|lk|apply Hkw; cbn; auto 12]|].
-    eapply firsts_miss; [eapply (evals_kw_alt_fail G full pil_c WS pil_comment_ok 189 190 191 192); [lk|lk|lk|lk|apply Hkw; cbn; auto 12]|].
-    apply firsts_hit.
-    (* the kernel-complex alternative *)
-    eapply evals_node_ok; [lk|apply (pre_premise G full pil_c WS pil_comment_ok); repeat split|].
+  - eapply evals_node; [lk|apply (pre_premise G full pil_c WS pil_comment_ok); repeat split|].
     unfold pre_pos. cbn [andb ncallpre]. rewrite Hx.
     eapply impls_wrap; [reflexivity|reflexivity|].
-    eapply evals_node_ok; [lk|cbn; reflexivity|].
+    eapply evals_node; [lk|cbn; reflexivity|].
     eapply impls_and; [reflexivity|reflexivity| |].
     + apply (ev_ident full false _ (kc_n0 s) (kc_ns s) _ eq_refl H0 Hns Hfol).
     + eapply seqs_cons.
       { eapply evals_eq; [apply (evals_slit G full pil_c WS pil_comment_ok 204 205 true true true); lk|].
         cbn [andb]. rewrite spre_blanks_stop by (try exact Hb2; reflexivity).
         unfold lit_res. cbn [starts_with]. rewrite N.eqb_refl. reflexivity. }
-      eapply seqs_cons.
-      { (* OneOrMore [Group [pattern]] : exactly one group *)
-        eapply evals_node_ok; [lk|apply (pre_premise G full pil_c WS pil_comment_ok); repeat split|].
+      eapply seqs_cons; [|exact Htail].
+      (* OneOrMore [Group [pattern]] : exactly one group *)
+      eapply evals_eq.
+      * eapply evals_node_ok; [lk|apply (pre_premise G full pil_c WS pil_comment_ok); repeat split|].
         unfold pre_pos. cbn [andb ncallpre].
         eapply impls_many; [reflexivity|reflexivity| |].
-        - eapply evals_node_ok; [lk|apply (pre_premise G full pil_c WS pil_comment_ok); repeat split|].
-          unfold pre_pos. cbn [andb ncallpre]. rewrite spre_idem.
-          eapply impls_wrap; [reflexivity|reflexivity|].
-          eapply evals_node_ok; [lk|cbn; reflexivity|].
-          eapply impls_wrap; [reflexivity|reflexivity|].
-          apply (ev_many_gen full false (kc_first s) (kc_more s) (E ++ k) (spre R)).
-          + apply item_parses_any.
-          + intros it _. apply item_parses_any.
-          + exact Hwf.
-          + unfold pat_stop. destruct (spre (E ++ k)) as [|d z]; [exact I|]. cbn in *. rewrite He1, He2. reflexivity.
-          + rewrite spre_idem. rewrite ER. cbn [items_text fold_right]. apply spre_item_text. exact Hwi.
-        - cbn [nign]. eapply loops_stop; [apply (skips_std G full pil_c WS pil_comment_ok)|].
-          eapply evals_node_fail; [lk|apply (pre_premise G full pil_c WS pil_comment_ok); repeat split|].
-          unfold pre_pos. cbn [andb ncallpre]. rewrite spre_skip_ign.
-          eapply impls_wrap; [reflexivity|reflexivity|].
-          apply (ev_pattern_stop full false (E ++ k) He1 He2). }
-      eapply seqs_cons.
-      { (* no concentration *)
-        eapply evals_node_ok; [lk|rewrite andb_false_r; reflexivity|].
-        eapply impls_opt_none; [reflexivity|reflexivity|].
-        eapply evals_node_fail; [lk|cbn; reflexivity|]. apply impls_first; [reflexivity|]. cbn [nkids].
-        eapply firsts_miss.
-        { eapply (evals_kw_alt_fail G full pil_c WS pil_comment_ok 240 241 242 243); [lk|lk|lk|lk|].
-          rw_alias (starts_with_nohead 64%N [] _ He3). reflexivity. }
-        eapply firsts_miss; [|apply firsts_nil].
-        eapply (evals_kw_alt_fail G full pil_c WS pil_comment_ok 253 254 255 256); [lk|lk|lk|lk|].
-        rw_alias (starts_with_nohead 64%N [] _ He3). reflexivity. }
-      eapply seqs_cons; [|apply seqs_nil].
+        -- eapply evals_node_ok; [lk|apply (pre_premise G full pil_c WS pil_comment_ok); repeat split|].
+           unfold pre_pos. cbn [andb ncallpre]. rewrite spre_idem.
+           eapply impls_wrap; [reflexivity|reflexivity|].
+           eapply evals_node_ok; [lk|cbn; reflexivity|].
+           eapply impls_wrap; [reflexivity|reflexivity|].
+           apply (ev_many_gen full false (kc_first s) (kc_more s) T (spre R)).
+           ++ apply item_parses_any.
+           ++ intros it _. apply item_parses_any.
+           ++ exact Hwf.
+           ++ unfold pat_stop. destruct (spre T) as [|d z]; [exact I|]. cbn in *. rewrite He1, He2. reflexivity.
+           ++ rewrite spre_idem. rewrite ER. cbn [items_text fold_right]. apply spre_item_text. exact Hwi.
+        -- cbn [nign]. eapply loops_stop; [apply (skips_std G full pil_c WS pil_comment_ok)|].
+           eapply evals_node_fail; [lk|apply (pre_premise G full pil_c WS pil_comment_ok); repeat split|].
+           unfold pre_pos. cbn [andb ncallpre]. rewrite spre_skip_ign.
+           eapply impls_wrap; [reflexivity|reflexivity|].
+           apply (ev_pattern_stop full false T He1 He2).
+      * reflexivity.
+  - unfold wrap_kc, kc_head_toks. destruct res; reflexivity.
+Qed.
+
+(* no concentration: Opt [conc | conc] yields nothing where no '@' follows *)
+Lemma ev_noconc full T : nohead [64%N] (spre T) -> evals G full 238 true (At T) (POk (At T) []).
+Proof.
+  intros He3. eapply evals_eq.
+  - eapply evals_node_ok; [lk|rewrite andb_false_r; reflexivity|].
+    eapply impls_opt_none; [reflexivity|reflexivity|].
+    eapply evals_node_fail; [lk|cbn; reflexivity|]. apply impls_first; [reflexivity|]. cbn [nkids].
+    eapply firsts_miss.
+    { eapply (evals_kw_alt_fail G full pil_c WS pil_comment_ok 240 241 242 243); [lk|lk|lk|lk|].
+      rw_alias (starts_with_nohead 64%N [] _ He3). reflexivity. }
+    eapply firsts_miss; [|apply firsts_nil].
+    eapply (evals_kw_alt_fail G full pil_c WS pil_comment_ok 253 254 255 256); [lk|lk|lk|lk|].
+    rw_alias (starts_with_nohead 64%N [] _ He3). reflexivity.
+  - reflexivity.
+Qed.
+
+Theorem roundtrip_kernel_complex s :
+  forall full b E k, blanks WS b -> stmt_end E k -> kc_stmt_ok s (E ++ k) ->
+  evals G full 8 true (At (b ++ kc_render s ++ E ++ k)) (POk (after WS k) [kc_tree s]).
+Proof.
+  intros full b E k Hb Hk Hs.
+  assert (ET : b ++ kc_render s ++ E ++ k = b ++ kc_text s (E ++ k)).
+  { unfold kc_render, kc_text. norm_text. rewrite items_text_app. reflexivity. }
+  rewrite ET.
+  assert (Hend : nohead idch (spre (E ++ k)) /\ nohead [PLUS] (spre (E ++ k)) /\ nohead [64%N] (spre (E ++ k))).
+  { repeat split; apply end_nohead_spre; try exact Hk; reflexivity. }
+  destruct Hend as (He1 & He2 & He3).
+  eapply evals_eq.
+  - eapply evals_node_ok; [lk|cbn; reflexivity|]. apply impls_first; [reflexivity|]. cbn [nkids].
+    apply (kernel_keyword_alts_fail s full b (E ++ k) _ _ Hb Hs).
+    apply firsts_hit.
+    eapply evals_eq.
+    + apply (kernel_alt_202 s full b (E ++ k) (POk (after WS k) (kc_head_toks s)) Hb Hs He1 He2).
+      eapply seqs_cons; [apply (ev_noconc full _ He3)|].
+      eapply seqs_cons; [|rewrite !app_nil_r; apply seqs_nil].
       apply (ev_end full 260 261 262 true); try lk; try (eexists; lk). exact Hk.
-  - unfold kc_tree. cbn. rewrite ?app_nil_r. reflexivity.
+    + reflexivity.
+  - unfold kc_tree. reflexivity.
 Qed.
 
 Theorem roundtrip_kernel_complex_parse s b E :
